@@ -280,7 +280,7 @@ func checkDowngrade(r *Report, p *Prog) {
 		okE := false
 		for _, name := range B2.Support(fs.Cond(ret.Block())) {
 			ai := a2.Atoms[name]
-			if ai != nil && ai.Kind == "empty" && strings.HasPrefix(ai.Args[0], "phi#") && fs.Implied(ret.Block(), B2.Var(name)) {
+			if ai != nil && ai.Kind == "empty" && (strings.HasPrefix(ai.Args[0], "phi#") || strings.HasPrefix(ai.Args[0], "firstSet(")) && fs.Implied(ret.Block(), B2.Var(name)) {
 				okE = true
 			}
 		}
